@@ -16,7 +16,7 @@ use barter_data::{
     books::{
         Level, OrderBook,
         manager::OrderBookL2Manager,
-        map::{OrderBookMap, OrderBookMapMulti},
+        map::{OrderBookMap, OrderBookMapMulti, OrderBookMapSingle},
     },
     event::MarketEvent,
     streams::{consumer::MarketStreamEvent, reconnect::Event},
@@ -170,7 +170,11 @@ enum Sut {
         tx: mpsc::UnboundedSender<MarketStreamEvent<Key, OrderBookEvent>>,
         sent: usize,
         acked: Arc<AtomicUsize>,
-        books: OrderBookMapMulti<Key>,
+        /// the shared books handed to the manager's map: ours, and (flavour multi) the other configured one
+        ours: Arc<RwLock<OrderBook>>,
+        other: Option<Arc<RwLock<OrderBook>>>,
+        /// what the other configured book must be: its own events applied directly, nothing else
+        other_ref: OrderBook,
         /// the manager runs on its own thread (own runtime), so that the harness can hold a read lock
         /// on a book while the manager wants to write it
         task: std::thread::JoinHandle<()>,
@@ -186,25 +190,53 @@ fn market_event(key: Key, kind: OrderBookEvent) -> MarketStreamEvent<Key, OrderB
     Event::Item(MarketEvent { time_exchange: time(0), time_received: time(0), exchange: ExchangeId::BinanceSpot, instrument: key, kind })
 }
 
+fn spawn_manager<M>(map: M, gate: Gate) -> std::thread::JoinHandle<()>
+where
+    M: OrderBookMap<Key = Key> + Send + 'static,
+{
+    let manager = OrderBookL2Manager { stream: gate, books: map };
+    std::thread::spawn(move || {
+        let rt = tokio::runtime::Builder::new_current_thread().enable_all().build().expect("manager runtime");
+        rt.block_on(manager.run());
+    })
+}
+
 impl Sut {
-    fn new(mode: &str) -> Sut {
+    /// `flavour` (manager mode): "single" = OrderBookMapSingle over OURS (OTHER and UNKNOWN are not configured),
+    /// "multi" = OrderBookMapMulti over OURS and OTHER (UNKNOWN is not configured)
+    fn new(mode: &str, flavour: &str) -> Sut {
         match mode {
             "direct" => Sut::Direct(OrderBook::default()),
             "manager" => {
                 let (tx, rx) = mpsc::unbounded_channel();
                 let acked = Arc::new(AtomicUsize::new(0));
-                let mut map = FnvHashMap::default();
-                map.insert(OURS, Arc::new(RwLock::new(OrderBook::default())));
-                map.insert(OTHER, Arc::new(RwLock::new(OrderBook::default())));
-                let books = OrderBookMapMulti::new(map);
-                let manager = OrderBookL2Manager { stream: Gate { rx, delivered: 0, acked: acked.clone() }, books: books.clone() };
-                let task = std::thread::spawn(move || {
-                    let rt = tokio::runtime::Builder::new_current_thread().enable_all().build().expect("manager runtime");
-                    rt.block_on(manager.run());
-                });
-                Sut::Manager { tx, sent: 0, acked, books, task }
+                let gate = Gate { rx, delivered: 0, acked: acked.clone() };
+                let ours = Arc::new(RwLock::new(OrderBook::default()));
+                let (other, task) = match flavour {
+                    "single" => (None, spawn_manager(OrderBookMapSingle::new(OURS, ours.clone()), gate)),
+                    "multi" => {
+                        let other = Arc::new(RwLock::new(OrderBook::default()));
+                        let mut map = FnvHashMap::default();
+                        map.insert(OURS, ours.clone());
+                        map.insert(OTHER, other.clone());
+                        (Some(other), spawn_manager(OrderBookMapMulti::new(map), gate))
+                    }
+                    f => usage(&format!("bad map flavour {f}")),
+                };
+                Sut::Manager { tx, sent: 0, acked, ours, other, other_ref: OrderBook::default(), task }
             }
             m => usage(&format!("bad mode {m}")),
+        }
+    }
+
+    /// the other configured book (flavour multi) follows exactly its own events
+    fn other_diverged(&self) -> Option<String> {
+        match self {
+            Sut::Manager { other: Some(other), other_ref, .. } => {
+                let held = other.read().clone();
+                (held != *other_ref).then(|| format!("the book of the other configured instrument is {held:?}, its own events give {other_ref:?}"))
+            }
+            _ => None,
         }
     }
 
@@ -226,8 +258,13 @@ impl Sut {
                 Event::Item(ev) if ev.instrument == OURS => catch(|| book.update(ev.kind)),
                 _ => Ok(()),
             },
-            Sut::Manager { tx, sent, acked, task, books } => {
-                let shared = books.find(&OURS).expect("configured book");
+            Sut::Manager { tx, sent, acked, task, ours, other, other_ref } => {
+                if let (Some(_), Event::Item(ev)) = (&other, &item) {
+                    if ev.instrument == OTHER {
+                        other_ref.update(ev.kind.clone());
+                    }
+                }
+                let shared = ours.clone();
                 let guard = reader.then(|| shared.read());
                 tx.send(item).map_err(|_| "manager task ended (input channel closed)".to_string())?;
                 *sent += 1;
@@ -264,36 +301,53 @@ impl Sut {
     fn book(&self, key: Key) -> OrderBook {
         match self {
             Sut::Direct(b) => b.clone(),
-            Sut::Manager { books, .. } => books.find(&key).expect("configured book").read().clone(),
+            Sut::Manager { ours, other, .. } => {
+                if key == OURS { ours.read().clone() } else { other.as_ref().expect("configured book").read().clone() }
+            }
         }
     }
 }
 
-/// Manager-level inputs that carry nothing for our book (logged as "Noop" lines).
+/// What is logged after a push: the projected book of OURS - unless the call panicked, or the other
+/// configured book no longer is what its own events make it.
+fn observe(sut: &Sut, sc: Scale, r: &Result<(), String>) -> Value {
+    match (r, sut.other_diverged()) {
+        (Err(p), _) => json!({"panic": p}),
+        (Ok(()), Some(d)) => json!({"anomaly": d}),
+        (Ok(()), None) => project_trace(&sut.book(OURS), sc),
+    }
+}
+
+/// Manager-level inputs that carry nothing for our book: reconnect notices and L2 events addressed to
+/// another instrument (configured or not). Logged with the event and its addressee (`inst`); the
+/// specification allows only ManagerSkip for them.
 async fn noise<R: Rng>(sut: &mut Sut, rng: &mut R, trace: &mut Out, counts: &mut Counts, sc: Scale) -> Result<(), String> {
     if !matches!(sut, Sut::Manager { .. }) {
         return Ok(());
     }
     while rng.random_range(0..3) == 0 {
-        let junk = OrderBook::new(
-            rng.random_range(0..50),
-            None,
-            vec![Level::new(rng.random_range(1..17), rng.random_range(0..4))],
-            vec![Level::new(rng.random_range(1..17), rng.random_range(0..4))],
-        );
-        let kind = if rng.random_bool(0.5) { OrderBookEvent::Update(junk) } else { OrderBookEvent::Snapshot(junk) };
-        let item = match rng.random_range(0..3) {
-            0 => Event::Reconnecting(ExchangeId::BinanceSpot),
-            1 => market_event(OTHER, kind),
-            _ => market_event(UNKNOWN, kind),
+        // a foreign event that would visibly change our book: levels over the same prices, own sequence
+        let snapshot = rng.random_bool(0.5);
+        let kind = if snapshot { "Snapshot" } else { "Update" };
+        let low = if snapshot { 1 } else { 0 }; // (snapshots carry positive amounts)
+        let bl = json!([{"p": rng.random_range(1..7), "a": rng.random_range(low..4)}]);
+        let al = json!([{"p": rng.random_range(1..7), "a": rng.random_range(low..4)}]);
+        let sq = rng.random_range(0..50);
+        let (a, inst, item) = match rng.random_range(0..3) {
+            0 => ("Noop", "none", Event::Reconnecting(ExchangeId::BinanceSpot)),
+            1 => (kind, "other", market_event(OTHER, event_of(kind, &bl, &al, sq, sc))),
+            _ => (kind, "unknown", market_event(UNKNOWN, event_of(kind, &bl, &al, sq, sc))),
         };
         let r = sut.push(item).await;
-        let post = match &r {
-            Ok(()) => project_trace(&sut.book(OURS), sc),
-            Err(p) => json!({"panic": p}),
-        };
-        trace.line(&json!({"a": "Noop", "bl": [], "al": [], "s": 0, "post": post}));
+        let post = observe(sut, sc, &r);
+        trace.line(&json!({"a": a, "inst": inst, "bl": if a == "Noop" { json!([]) } else { bl }, "al": if a == "Noop" { json!([]) } else { al },
+                           "s": if a == "Noop" { 0 } else { sq }, "post": post}));
         counts.noop += 1;
+        match inst {
+            "other" => counts.foreign_configured_or_single += 1,
+            "unknown" => counts.foreign_unknown += 1,
+            _ => {}
+        }
         r?;
     }
     Ok(())
@@ -313,6 +367,10 @@ struct Counts {
     remove: usize,
     alt_taken: usize,
     reader_held: usize,
+    foreign_configured_or_single: usize,
+    foreign_unknown: usize,
+    single_map_runs: usize,
+    multi_map_runs: usize,
 }
 
 fn classify(pre: &OrderBook, bl: &Value, al: &Value, sc: Scale, c: &mut Counts) {
@@ -343,7 +401,7 @@ fn classify(pre: &OrderBook, bl: &Value, al: &Value, sc: Scale, c: &mut Counts) 
 }
 
 fn ev_line(a: &str, bl: &Value, al: &Value, s: i64, post: Value) -> Value {
-    json!({"a": a, "bl": bl, "al": al, "s": s, "post": post})
+    json!({"a": a, "inst": if a == "Noop" { "none" } else { "own" }, "bl": bl, "al": al, "s": s, "post": post})
 }
 
 // ---------------------------------------------------------------------------------------------
@@ -364,7 +422,12 @@ async fn run(args: &Args) {
             ep: *[0, 0, -2, -8, 3].choose(&mut rng).unwrap(),
             ea: *[0, 0, -3, -8, 2].choose(&mut rng).unwrap(),
         };
-        let mut sut = Sut::new(&mode);
+        // manager mode: scenarios alternate between the two map flavours (a replay may fix it)
+        let flavour = scn.get("map").and_then(|m| m.as_str()).map(|m| m.to_string()).unwrap_or_else(|| args.str("map", if n % 2 == 0 { "single" } else { "multi" }));
+        if mode == "manager" {
+            if flavour == "single" { counts.single_map_runs += 1 } else { counts.multi_map_runs += 1 }
+        }
+        let mut sut = Sut::new(&mode, &flavour);
         let mut verdict = json!({"scn": n, "ok": true});
         // the initial book is installed by a snapshot event with its levels in random order
         let init = &scn["init"];
@@ -377,10 +440,12 @@ async fn run(args: &Args) {
         let s0 = i(init, "seq");
         let r = sut.push(market_event(OURS, event_of("Reset", &ib, &ia, s0, sc))).await;
         let mut dead = r.is_err();
-        trace.line(&ev_line("Reset", &ib, &ia, s0, match r {
+        let mut reset = ev_line("Reset", &ib, &ia, s0, match r {
             Ok(()) => project_trace(&sut.book(OURS), sc),
             Err(p) => json!({"panic": p}),
-        }));
+        });
+        reset["map"] = json!(flavour);
+        trace.line(&reset);
         // (replays reconstructed from traces carry only the levels of the initial book)
         if !dead && init.get("mid").is_some() {
             if let Err(e) = json_match(init, &project(&sut.book(OURS), sc), "init") {
@@ -429,7 +494,7 @@ async fn run(args: &Args) {
                 break;
             }
             let now = sut.book(OURS);
-            trace.line(&ev_line(kind, bl, al, s, project_trace(&now, sc)));
+            trace.line(&ev_line(kind, bl, al, s, observe(&sut, sc, &Ok(()))));
             if let Some(exp) = step.get("exp") {
                 let alts = exp.as_array().cloned().unwrap_or_default();
                 if alts.len() > 1 {
@@ -461,7 +526,9 @@ fn summary(mode: &str, scenarios: usize, steps: usize, failed: usize, lines: usi
                     "delete_absent": c.absent_delete, "insert_front": c.insert_front, "insert_middle": c.insert_middle,
                     "insert_back": c.insert_back, "replace": c.replace, "remove": c.remove,
                     "steps_with_several_allowed_books": c.alt_taken,
-                    "events_arriving_while_a_reader_holds_the_book": c.reader_held}})
+                    "events_arriving_while_a_reader_holds_the_book": c.reader_held,
+                    "events_of_the_other_instrument": c.foreign_configured_or_single, "events_of_an_unknown_instrument": c.foreign_unknown,
+                    "runs_with_OrderBookMapSingle": c.single_map_runs, "runs_with_OrderBookMapMulti": c.multi_map_runs}})
 }
 
 // ---------------------------------------------------------------------------------------------
@@ -532,15 +599,21 @@ async fn random(args: &Args) {
     let (mut done, mut segments, mut panics) = (0usize, 0usize, 0usize);
     while done < steps {
         segments += 1;
-        let mut sut = Sut::new(&mode);
+        let flavour = args.str("map", if segments % 2 == 0 { "single" } else { "multi" });
+        if mode == "manager" {
+            if flavour == "single" { counts.single_map_runs += 1 } else { counts.multi_map_runs += 1 }
+        }
+        let mut sut = Sut::new(&mode, &flavour);
         let (ib, ia) = (random_clean(&mut rng), random_clean(&mut rng));
         let s0 = rng.random_range(0..1000);
         let r = sut.push(market_event(OURS, event_of("Reset", &ib, &ia, s0, sc))).await;
         let mut dead = r.is_err();
-        trace.line(&ev_line("Reset", &ib, &ia, s0, match r {
+        let mut reset = ev_line("Reset", &ib, &ia, s0, match r {
             Ok(()) => project_trace(&sut.book(OURS), sc),
             Err(p) => json!({"panic": p}),
-        }));
+        });
+        reset["map"] = json!(flavour);
+        trace.line(&reset);
         let len = rng.random_range(20..80);
         for _ in 0..len {
             if dead || done >= steps {
@@ -572,10 +645,7 @@ async fn random(args: &Args) {
                 sut.push(item).await
             };
             dead = r.is_err();
-            trace.line(&ev_line(kind, &bl, &al, s, match r {
-                Ok(()) => project_trace(&sut.book(OURS), sc),
-                Err(p) => json!({"panic": p}),
-            }));
+            trace.line(&ev_line(kind, &bl, &al, s, observe(&sut, sc, &r)));
         }
         if dead {
             panics += 1;
